@@ -4,6 +4,8 @@
 #include <cstdio>
 #include <unordered_map>
 
+extern "C" void race_scope_add(uintptr_t a, uintptr_t b) __attribute__((weak));
+extern "C" void race_scope_remove(uintptr_t a, uintptr_t b) __attribute__((weak));
 namespace {
 struct Blk { size_t size; uint64_t id; int task; };
 std::unordered_map<void *, Blk> live;
@@ -27,7 +29,7 @@ size_t live_blocks() { return live.size(); }
 size_t live_bytes() { return live_b; }
 uint64_t n_allocs() { return n_alloc; }
 uint64_t n_refused() { return n_ref; }
-void sweep() { for (auto &kv : live) free(kv.first); live.clear(); live_b = 0; }
+void sweep() { for (auto &kv : live) { if (race_scope_remove) race_scope_remove((uintptr_t) kv.first, (uintptr_t) kv.first + kv.second.size); free(kv.first); } live.clear(); live_b = 0; }
 std::string live_summary(int max) {
     std::string s; char buf[96]; int n = 0;
     for (auto &kv : live) { if (n++ >= max) break; snprintf(buf, sizeof buf, "blk#%llu size=%zu task=%d; ", (unsigned long long) kv.second.id, kv.second.size, kv.second.task); s += buf; }
@@ -51,6 +53,7 @@ void *sim_malloc(size_t n) {
     if (!p) return nullptr;
     fill((uint8_t *) p, 0, n, n);
     live[p] = Blk{n, ++n_alloc, sim::cur_task()}; live_b += n;
+    if (race_scope_add) race_scope_add((uintptr_t) p, (uintptr_t) p + n);
     return p;
 }
 void *sim_calloc(size_t a, size_t b) {
@@ -59,6 +62,7 @@ void *sim_calloc(size_t a, size_t b) {
     void *p = calloc(1, n ? n : 1);
     if (!p) return nullptr;
     live[p] = Blk{n, ++n_alloc, sim::cur_task()}; live_b += n;
+    if (race_scope_add) race_scope_add((uintptr_t) p, (uintptr_t) p + n);
     return p;
 }
 void sim_free(void *p) {
@@ -70,6 +74,7 @@ void sim_free(void *p) {
         free(p);
         return;
     }
+    if (race_scope_remove) race_scope_remove((uintptr_t) p, (uintptr_t) p + it->second.size);
     live_b -= it->second.size;
     live.erase(it);
     free(p);
@@ -85,9 +90,11 @@ void *sim_realloc(void *p, size_t n) {
     if (!q) return nullptr;
     memcpy(q, p, old < n ? old : n);
     if (n > old) fill((uint8_t *) q, old, n, n);
+    if (race_scope_remove) race_scope_remove((uintptr_t) p, (uintptr_t) p + old);
     live_b -= old; live.erase(it);
     free(p);
     live[q] = Blk{n, ++n_alloc, sim::cur_task()}; live_b += n;
+    if (race_scope_add) race_scope_add((uintptr_t) q, (uintptr_t) q + n);
     return q;
 }
 }
